@@ -504,6 +504,17 @@ func (s *S) Live() int {
 	return n
 }
 
+// LiveExcept counts the unfinished threads whose name does not start with prefix (environment threads of the harness).
+func (s *S) LiveExcept(prefix string) int {
+	n := 0
+	for _, t := range s.threads {
+		if t.st != stDone && !strings.HasPrefix(t.Name, prefix) {
+			n++
+		}
+	}
+	return n
+}
+
 var watchdog = 60 * time.Second
 
 func init() {
